@@ -22,10 +22,14 @@ type params struct {
 	Reads   []string // members on which a message arrives (one per step, "" none; "a+a+b" = a burst delivered at once)
 	P       int
 	FailClose string // member whose Close returns an error
+	Backlog   int    // messages the members deliver before the application starts to read (the merge queue holds 1024)
 	Stall     string // member whose Write stalls (back pressure) until it is closed; Close is called while a Write is stuck in it
 }
 
 func (p params) name() string {
+	if p.Backlog > 0 {
+		return fmt.Sprintf("%s/init=%q/%s/%s/reads=%s/P%d/backlog=%d", strings.Join(p.Members, ""), p.Initial, p.Sched, strings.Join(p.Events, ","), strings.Join(p.Reads, ","), p.P, p.Backlog)
+	}
 	if p.Stall != "" {
 		return fmt.Sprintf("%s/init=%q/%s/%s/reads=%s/P%d/stall=%s", strings.Join(p.Members, ""), p.Initial, p.Sched, strings.Join(p.Events, ","), strings.Join(p.Reads, ","), p.P, p.Stall)
 	}
@@ -90,6 +94,8 @@ func scenarios(tier string) []vlib.Scenario {
 		}
 	}
 	add(params{Members: []string{"a", "b"}, Initial: "a", Sched: "event", Events: []string{"b", "a"}, Reads: []string{"a", "b"}, P: 2})
+	// a reader that starts late: more messages than the merge queue holds are waiting, none may be lost
+	add(params{Members: []string{"a", "b"}, Initial: "a", Sched: "event", Events: []string{"b"}, Reads: []string{"a"}, Backlog: 1100})
 	// Close while a Write is stuck inside the selected member
 	add(params{Members: []string{"a", "b"}, Initial: "a", Sched: "event", Events: []string{"a"}, Reads: []string{"b"}, Stall: "a"})
 	add(params{Members: []string{"a", "b", "c"}, Initial: "a", Sched: "event", Events: []string{"b"}, Reads: []string{"a"}, Stall: "b", P: 1})
@@ -225,6 +231,16 @@ func (w *world) main() {
 		return
 	}
 	w.phase = "run"
+	if w.p.Backlog > 0 {
+		for k := 0; k < w.p.Backlog; k++ {
+			mid := w.p.Members[k%len(w.p.Members)]
+			msg := fmt.Sprintf("backlog-%d-%s", k, mid)
+			w.members[mid].inbox = append(w.members[mid].inbox, []byte(msg))
+			w.readsSent = append(w.readsSent, msg)
+			w.rxWant += uint64(len(msg))
+		}
+		vsched.Quiesce()
+	}
 	// reader
 	vsched.Go("h:reader", func() {
 		for {
